@@ -176,7 +176,7 @@ fn main() {
                                     fail("c10.ret", format!("caller received {:?}, expected {:?}", got, want));
                                 }
                                 let seen = mvs(&rec["seen"]);
-                                let nested = rec["mkind"] != "plain";
+                                let nested = rec["mkind"] == "sink" || rec["mkind"] == "fn";
                                 if log.len() != (if nested { 2 } else { 1 }) || log[0].0 != method {
                                     fail("c10.dispatch", format!("implementation log {:?}", log.iter().map(|x| x.0.clone()).collect::<Vec<_>>()));
                                 } else if log[0].1 != seen {
